@@ -84,4 +84,85 @@ def handle (e : C04.Env) (op : String) (args : List String) (_got : String) : Op
     some { model := b2s m, spec := [b2s s], tags := ["gtv." ++ (if s then "in" else "out"), "gtv.branch." ++ br] }
   | _, _ => none
 
+/-- the ep / ep2 context lines of the stream must describe the curve of the pc_param line (otherwise: no model, class C) -/
+def ctx1 (b : C12.Env) (ep : Option C03.Env) (w : Nat) : Option C03.MulCtx := do
+  let e ← ep
+  if e.c.p == b.c1.p && e.c.a == b.c1.a && e.c.b == b.c1.b && e.n == b.n && e.g == b.g1 then C03.mkCtx e w else none
+
+def ctx2 (b : C12.Env) (ep2 : Option C11.Env) (w : Nat) : Option C11.MulCtx := do
+  let e ← ep2
+  if e.c.d.p == b.e2.c.d.p && e.n == b.n && Relic.Spec.CurveX.canonPt e.c e.g == Relic.Spec.CurveX.canonPt b.e2.c b.e2.g then C11.mkCtx e w else none
+
+/-- variant of the pc layer → (name of the ep / ep2 routine in the sibling drivers, scalar handed on) by include/relic_pc.h and
+    src/pc/relic_pc_exp.c (EP_MUL = LWNAF, EP_FIX = COMBS, EP_SIM = INTER in every configuration the check builds) -/
+def route (w n : Nat) (v : String) (k : Int) : Option (String × Int × String) :=
+  if v == "mul" then
+    let r := mulRoute w n k
+    some (if r.1 then "basic" else "lwnaf", r.2, if r.1 then "dig-path" else "full-path")
+  else if v == "gen" then some ("gen", genRoute n k, "gen")
+  else if v == "any" then some ("basic", k, "any")
+  else if v == "sec" then some ("lwreg", k, "sec")
+  else if v == "dig" then some ("dig", k, "dig")
+  else if v == "fix" then some ("fix_combs", k, "fix")
+  else none
+
+def handleMul (b : C12.Env) (ep : Option C03.Env) (ep2 : Option C11.Env) (w : Nat) (op : String) (args : List String) (got : String) : Option Verdict :=
+  let pI := fun (s : String) => (parseBn w s).map (Relic.Model.Bn.toInt (2 ^ w))
+  let c1 := b.c1
+  let c2 := b.e2.c
+  let d2 := c2.d
+  match op, args with
+  | "g1m", [v0, p, k] => do
+    let v := if v0.endsWith "!" then (v0.dropEnd 1).toString else v0
+    let p0 ← C03.parsePoint p
+    let k ← pI k
+    let p' := if v == "gen" then b.g1 else p0
+    let k' := if v == "dig" then ((k.natAbs % 2 ^ w : Nat) : Int) else k
+    let spec := C03.fmtPoint (Relic.Spec.Curve.mul c1 p' k')
+    -- an identity base of the fixed-base variant is the recorded finding (reported error): left to the specification column
+    let mdl := if v == "fix" && p' == none then none else do
+      let m ← ctx1 b ep w
+      let (rv, rk, _) ← route w b.n v k'
+      C03.modelMul m rv p' rk
+    let rt := ((route w b.n v k').map (·.2.2)).getD "?"
+    match mdl with
+    | some s => some { model := s, spec := [spec], tags := ["g1m." ++ v0, "g1m.model." ++ rt] }
+    | none => some { model := got, spec := [spec], tags := ["g1m." ++ v0, "g1m.classC." ++ rt] }
+  | "g2m", [v0, q, k] => do
+    let v := if v0.endsWith "!" then (v0.dropEnd 1).toString else v0
+    let q0 ← C11.parsePoint d2 q
+    let k ← pI k
+    let q' := if v == "gen" then b.e2.g else q0
+    let k' := if v == "dig" then ((k.natAbs % 2 ^ w : Nat) : Int) else k
+    let spec := C11.fmtPoint d2 (Relic.Spec.CurveX.mul c2 q' k')
+    let mdl := if v == "fix" && q' == none then none else do
+      let m ← ctx2 b ep2 w
+      let (rv, rk, _) ← route w b.n v k'
+      C11.modelMul m rv q' rk
+    let rt := ((route w b.n v k').map (·.2.2)).getD "?"
+    match mdl with
+    | some s => some { model := s, spec := [spec], tags := ["g2m." ++ v0, "g2m.model." ++ rt] }
+    | none => some { model := got, spec := [spec], tags := ["g2m." ++ v0, "g2m.classC." ++ rt] }
+  | "g1s", [v, p, k, q, m] => do
+    let p0 ← C03.parsePoint p
+    let q' ← C03.parsePoint q
+    let k ← pI k
+    let mm ← pI m
+    let p' := if v == "gen" then b.g1 else p0
+    let spec := C03.fmtPoint (Relic.Spec.Curve.add c1 (Relic.Spec.Curve.mul c1 p' k) (Relic.Spec.Curve.mul c1 q' mm))
+    match (ctx1 b ep w).bind fun mc => C03.modelSim mc v p' k q' mm with
+    | some s => some { model := s, spec := [spec], tags := ["g1s." ++ v, "g1s.model." ++ v] }
+    | none => some { model := got, spec := [spec], tags := ["g1s." ++ v, "g1s.classC." ++ v] }
+  | "g2s", [v, p, k, q, m] => do
+    let p0 ← C11.parsePoint d2 p
+    let q' ← C11.parsePoint d2 q
+    let k ← pI k
+    let mm ← pI m
+    let p' := if v == "gen" then b.e2.g else p0
+    let spec := C11.fmtPoint d2 (Relic.Spec.CurveX.add c2 (Relic.Spec.CurveX.mul c2 p' k) (Relic.Spec.CurveX.mul c2 q' mm))
+    match (ctx2 b ep2 w).bind fun mc => C11.modelSim mc v p' k q' mm with
+    | some s => some { model := s, spec := [spec], tags := ["g2s." ++ v, "g2s.model." ++ v] }
+    | none => some { model := got, spec := [spec], tags := ["g2s." ++ v, "g2s.classC." ++ v] }
+  | _, _ => none
+
 end Driver.C12V
